@@ -153,8 +153,13 @@ _P["C07"] = {
     "harness_timeout": {"quick": 900, "thorough": 3400},
 }
 _P["C05"] = {
-    "explanation": "Theorems C05_* (Properties/C05.v) over Model/Parse.v + Model/Wire.v; correspondence: every kind Parse dispatches on, encode -> Parse -> encode with a canonical field dump before/after.",
-    "trusted_base": _DEC_TRUSTED, "assumptions": [],
+    "explanation": "Theorem C05_roundtrip (Properties/C05.v; Proofs/SegP.v, ParseRtAllP.v .. ParseRtAll7P.v, induction over recipes): for every controller-side message recipe whose arguments fit their fields "
+                   "the parser entry point of Model/Parse.v returns the built value as a wire reader sees it (pview) and encoding that value again gives the original bytes - all action kinds, conntrack nesting, "
+                   "match fields against the decoder's own width table, instructions, buckets, 13 message kinds, nested bundles; C05_roundtrip_examples by computation. "
+                   "Correspondence: every kind Parse dispatches on (controller- and switch-side), encode -> Parse -> encode with a canonical field dump before/after; for controller-side cases the recipe rides along and the "
+                   "theorem's prediction is compared with the implementation (coverage.theorem_hypothesis_holds_on).",
+    "trusted_base": _DEC_TRUSTED, "assumptions": ["switch-side messages (no recipe model) are decided by the correspondence and by C04's examples only",
+                                                   "hypothesis pmsg_ok: numbers within field widths, register numbers below 16 and tunnel-metadata numbers below 8 (the decoder's table), sizes below 65000; D10 bodies excluded"],
     "harness_timeout": {"quick": 900, "thorough": 3400},
 }
 
